@@ -212,11 +212,11 @@ def execute(case) -> list[Step]:
             self.fail_read = self.fail_write = self.fail_connect = False
             self.fail_write_in = 0      # > 0: the n-th physical write call from now fails once
 
-        def _io_failure(self, what, how="batch"):
+        def _io_failure(self, what, how="batch", reg=None):
             if cfg["volatile"]:      # the device lost power: output registers fall back to their power-on content
                 for n in WRITABLE:
                     self.mem[n] = RESET_VALUE
-            ev.append((what, how))
+            ev.append((what, how) if reg is None else (what, how, reg))
             raise HardwareLayerException("fake %s failure" % what)
 
         def read(self, r):
@@ -243,7 +243,7 @@ def execute(case) -> list[Step]:
 
         def write(self, value, r):
             if self.fail_write or self._nth():
-                self._io_failure("wfail", "single")
+                self._io_failure("wfail", "single", r.name)
             self.mem[r.name] = value
             ev.append(("w", r.name, value, "single"))
 
@@ -419,7 +419,7 @@ class RefModel:
         # a failing single write() that follows the call's own (successful or empty) write is the decorator flushing
         # values it buffered earlier
         fails = [j for j, e in enumerate(st.ev) if e[0] in ("rfail", "wfail")]
-        flush_fail = bool(fails) and st.kind in ("write", "write_batch") and st.ev[fails[0]] == ("wfail", "single") \
+        flush_fail = bool(fails) and st.kind in ("write", "write_batch") and tuple(st.ev[fails[0]][:2]) == ("wfail", "single") \
             and (st.kind == "write_batch" or any(e[0] == "w" for e in st.ev[:fails[0]]))
         if s == "OK":
             if io_fail and io_ok:
